@@ -2,7 +2,7 @@
 # usage: run_tree.sh <scratch worktree> [props...] — run the checks against a scratch tree (PT_REPO) and list every alarm.
 # The checks run from a snapshot of /verif's code (sharing .work and the driver), so editing /verif meanwhile does not disturb them.
 WT="$1"; shift
-PROPS=${@:-C01 C02 C03 C04 C05 C06 C07 C08 C09 C10 C11 C12 C13 C14 C16 C17 C18 C19 C20}
+PROPS=${@:-C01 C02 C03 C04 C05 C06 C07 C08 C09 C10 C11 C12 C13 C14 C15 C16 C17 C18 C19 C20}
 SNAP=$(mktemp -d /tmp/verif_snap.XXXXXX)
 rsync -a --exclude .work --exclude .git --exclude ptfacts --exclude out --exclude evidence /verif/ "$SNAP"/
 ln -s /verif/.work "$SNAP/.work"; ln -s /verif/ptfacts "$SNAP/ptfacts"
